@@ -208,12 +208,16 @@ if not NATIVE:
 
     HASH = HashStub()
 
-    def install():
+    def install(order_sets=False, extra=None):
+        """order_sets: every set() in the cleaner modules is an OSet (engine-chosen iteration order = any hash seed) instead of the
+        insertion-ordered solver-compared set; used by C10 whose subject is exactly that order"""
+        from symx.oset import OSet
         mods = {}
         for m in ("insights.cleaner", "insights.cleaner.ip", "insights.cleaner.mac", "insights.cleaner.hostname", "insights.cleaner.keyword",
                   "insights.cleaner.password", "insights.cleaner.pattern", "insights.cleaner.filters", "insights.util.posix_regex"):
-            mods[m] = {"strings": True, "names": {"dict": SymKeyDict, "set": SymKeySet}}
-        mods["insights.cleaner"] = {"strings": True, "order": True, "names": {}}
+            mods[m] = {"strings": True, "order": order_sets, "names": {"dict": SymKeyDict, "set": OSet if order_sets else SymKeySet}}
+        mods["insights.cleaner"] = {"strings": True, "order": True, "names": ({"set": OSet} if order_sets else {})}
+        mods.update(extra or {})
         instrument.install(mods)
         symops.ENCODE_HOOK[0] = lambda s: SBytes(s)
 
